@@ -2,6 +2,7 @@ package main
 
 import (
 	"fmt"
+	"math/rand"
 	"reflect"
 	"strings"
 	"sync"
@@ -257,6 +258,21 @@ func c10Impl(in []int64) []int64 {
 				return []int64{BADCASE}
 			}
 		}
+	case 3: // capacity only, on a ring of empty structs (4 bytes a slot): requests up to 2^26
+		if c > 1<<26 {
+			return []int64{BADCASE}
+		}
+		var res []int64
+		func() {
+			defer func() {
+				if recover() != nil {
+					res = []int64{PANIC}
+				}
+			}()
+			r := ringz.NewSync[struct{}](int(c))
+			res = []int64{int64(r.Cap())}
+		}()
+		return res
 	case 1, 2:
 		if !c10AllocGuard(c) {
 			return []int64{BADCASE}
@@ -447,6 +463,9 @@ func c10Gen(c *Ctx) {
 		}
 	}
 	c.Each(len(capCases), func(i int, t *T) { t.Try("sync-cap-rounding", capCases[i], true) })
+	// capacity only, on rings of empty structs: requests up to 2^26 (every bit-pattern class of c-1)
+	bigReq := c10CapRequests(rand.New(rand.NewSource(c.Seed)), c.N(400, 3000), uint(c.N(22, 26)))
+	c.Each(len(bigReq), func(i int, t *T) { t.Try("sync-cap-only", []int64{3, bigReq[i], -1}, bigReq[i] > 1<<13) })
 
 	// ---------------- 4. the wrap window: counters injected at 2^32*m - k, then 2k+cap operations across the boundary
 	nw := c.N(4000, 80000)
@@ -614,6 +633,8 @@ func c10Describe(in []int64) string {
 	}
 	s := ""
 	switch in[0] {
+	case 3:
+		return fmt.Sprintf("ringz.NewSync[struct{}](%d).Cap()", in[1])
 	case 0:
 		s = fmt.Sprintf("ringz.New(%d):", in[1])
 	case 1:
@@ -635,6 +656,30 @@ func c10Describe(in []int64) string {
 	return s
 }
 
+// requested capacities whose round-up exercises every bit pattern class of c-1: 2^j-1, 2^j, 2^j+1, 2^j+2^i (+1), a
+// lone high bit over long runs of zeros, all ones, random
+func c10CapRequests(r *rand.Rand, n int, maxj uint) []int64 {
+	var out []int64
+	for j := uint(1); j <= maxj; j++ {
+		p := int64(1) << j
+		out = append(out, p-1, p, p+1, p+2, p+3)
+		for i := uint(0); i < j; i += 3 {
+			out = append(out, p+int64(1)<<i, p+int64(1)<<i+1, p-int64(1)<<i)
+		}
+	}
+	for len(out) < n {
+		j := uint(1 + r.Intn(int(maxj)))
+		out = append(out, int64(1)<<j|r.Int63n(int64(1)<<j))
+	}
+	var ok []int64
+	for _, c := range out {
+		if c >= -1 && c <= 1<<maxj {
+			ok = append(ok, c)
+		}
+	}
+	return ok
+}
+
 func c10Known(in, out []int64) string {
 	if len(in) >= 2 && (in[0] == 1 || in[0] == 2) && in[1] > 1<<31 {
 		return "F11"
@@ -645,5 +690,5 @@ func c10Known(in, out []int64) string {
 func init() {
 	Register(&Prop{ID: "C10", Num: 10, SpecMode: "equal", Gen: c10Gen, Impl: c10Impl,
 		Shrink: ShrinkOps(3, 2), Known: c10Known, Describe: c10Describe,
-		Rule: "exhaustive: Ring caps 1..5 x every sequence of mutators (Push, Pop, PushWithExpand, Recap(0,1,2,3,4,6), Init(2)) up to the tier's length with all observers after every step; SyncRing requested caps 1..9 x {fresh, counters injected at 2^32-1, 2^32-2, 2^32-cap, 2^32-cap-1, 2^33-3} x every Push/Pop sequence up to the tier's length; wrap window: counters at 2^32*m-k then 2k+cap random operations; random long sequences (Ring with Recap/PushWithExpand/Init at random rotations, SyncRing with random injected counters); capacity rounding for 2^j-1, 2^j, 2^j+1 (j <= 13) and requests > 2^31 (known finding F11); honest push/pop pairs against the closed form. distinct = distinct case; non-trivial = at least 3 mutating steps of at least 2 kinds (exhaustive), at least 2-3 operation kinds (random)"})
+		Rule: "exhaustive: Ring caps 1..5 x every sequence of mutators (Push, Pop, PushWithExpand, Recap(0,1,2,3,4,6), Init(2)) up to the tier's length with all observers after every step; SyncRing requested caps 1..9 x {fresh, counters injected at 2^32-1, 2^32-2, 2^32-cap, 2^32-cap-1, 2^33-3} x every Push/Pop sequence up to the tier's length; wrap window: counters at 2^32*m-k then 2k+cap random operations; random long sequences (Ring with Recap/PushWithExpand/Init at random rotations, SyncRing with random injected counters); capacity rounding for 2^j-1, 2^j, 2^j+1 (j <= 13) with operations, capacity alone for requests up to 2^26 (2^j +- small, 2^j+2^i, random; rings of empty structs), and requests > 2^31 (known finding F11); honest push/pop pairs against the closed form. distinct = distinct case; non-trivial = at least 3 mutating steps of at least 2 kinds (exhaustive), at least 2-3 operation kinds (random)"})
 }
